@@ -1,0 +1,18 @@
+//go:build verif
+
+package graph
+
+// VerifPopHook, when set, observes the order in which Dijkstra extracts
+// vertices (by hash code) from its priority queue. Verification builds only.
+var VerifPopHook func(v interface{})
+
+func verifPop(v interface{}) {
+	if VerifPopHook != nil {
+		VerifPopHook(v)
+	}
+}
+
+// VerifAdjacency exposes the raw adjacency and hash maps for observation.
+func (g *Graph) VerifAdjacency() (out, in map[interface{}]map[interface{}]int, hash map[interface{}]Vertex) {
+	return g.adjacencyOut, g.adjacencyIn, g.hash
+}
